@@ -22,7 +22,7 @@ RULE = ("shapes: vectors 1-4, matrices r x c with r,c in 1..3 (13 shapes). eleme
         "different entries (or is a scalar aggregate of >=2 different entries).")
 ASSUMPTIONS = ["arr_size is judged on vectors only (for a matrix the library documents 'number of rows', numpy .size is rows*cols: ambiguous)",
                "an exception anywhere between construction and evaluation is 'rejected', allowed by the property for supported and unsupported forms alike"]
-REQUIRED = {"shrunk_arrays_compared": 5, "late_initial_values": 5, "second_use_entries": 20, "named_stock_entries": 15, "arrayed_stock_entries_over_time": 30, "accepted_equal": 300, "rejected_mismatch": 100, "entries_compared": 2000}
+REQUIRED = {"aggregates_inside_arrays_compared": 20, "shrunk_arrays_compared": 5, "late_initial_values": 5, "second_use_entries": 20, "named_stock_entries": 15, "arrayed_stock_entries_over_time": 30, "accepted_equal": 300, "rejected_mismatch": 100, "entries_compared": 2000}
 BUDGET_S = {"quick": 100, "thorough": 1200}
 
 VEC = [(n,) for n in (1, 2, 3, 4)]
@@ -131,6 +131,10 @@ def gen_cases(tier, seed):
             cases.append(dict(form="second_use", tmpl=tmpl, draw=d))
         for tmpl in SHRINK:
             cases.append(dict(form="shrink", tmpl=tmpl, draw=d))
+        for tmpl in AGG_IN_ARRAY:
+            for agg in ("sum", "prod", "mean", "median", "stddev"):
+                for shape in ([3], [2, 3]):
+                    cases.append(dict(form="agg_in_array", tmpl=tmpl, agg=agg, shape=shape, draw=d))
         for s1 in SHAPES:
             for agg in AGGS:
                 ranks = [-1, 1, 2, 99] if agg == "rank" else [None]
@@ -406,6 +410,42 @@ def run_named_stock(case):
     return dict(verdict="held", nt="named_stock:" + tmpl, counters=counters)
 
 
+AGG_IN_ARRAY = ["A - g(A)", "A / g(B)", "g(A) * B", "(A + B) - g(A)", "A - (g(A) + g(B))", "A * 2.0 - g(B)"]
+
+
+def run_agg_in_array(case):
+    """An aggregate (a single value) as an operand inside an element-wise expression: every entry uses the aggregate numpy computes."""
+    from BPTK_Py import Model
+    d = case["draw"]
+    m = Model(starttime=0.0, stoptime=3.0, dt=1.0, name="agginarr")
+    shape = case["shape"]
+    A, B = values(shape, d, 71), values(shape, d, 72)
+    A.flat[0] += 3.25          # no symmetric data: mean, median and the rest all differ
+    B.flat[-1] -= 2.5
+    B = np.where(np.abs(B) < 0.2, 1.5, B)
+    fn = {"sum": np.sum, "prod": np.prod, "mean": np.mean, "median": np.median, "stddev": np.std}[case["agg"]]
+    if abs(fn(B)) < 1e-3:
+        return dict(verdict="illcond", counters={"illcond": 1})
+    expected = np.asarray(eval(case["tmpl"], {}, dict(A=A, B=B, g=fn)), dtype=float)
+    counters = {"aggregates_inside_arrays": 1}
+    try:
+        a, b = make_el(m, "converter", "a", A), make_el(m, "converter", "b", B)
+        res = m.converter("res")
+        res.equation = eval(case["tmpl"], {}, dict(A=a, B=b, g=lambda el: getattr(el, "arr_" + case["agg"])()))
+        got = read(res, expected.shape, 1.0)
+    except ShapeMismatch as e:
+        return dict(verdict="violated", counters=counters, mech="shape:agg_in_array", witness=dict(case=case, error=str(e)))
+    except Exception as e:
+        counters["rejected_supported"] = 1
+        return dict(verdict="rejected", counters=counters, sample=dict(case=case, why="%s: %s" % (type(e).__name__, str(e)[:100])))
+    counters["entries_compared"] = int(expected.size)
+    counters["aggregates_inside_arrays_compared"] = 1
+    if not np.allclose(got, expected, rtol=1e-9, atol=1e-12):
+        return dict(verdict="violated", counters=counters, mech="value:agg_in_array:" + case["agg"], witness=dict(case=case, expected=expected.tolist(), got=got.tolist()))
+    counters["accepted_equal"] = 1
+    return dict(verdict="held", nt="agg_in_array:%s:%s" % (case["agg"], case["tmpl"]), counters=counters)
+
+
 SHRINK = ["reassign_smaller_sum", "reassign_smaller_entries", "setup_smaller_sum", "matrix_fewer_columns_sum", "vector_over_matrix_sum",
           "stock_smaller_expr", "stock_larger_expr", "stock_matrix_other_shape"]
 
@@ -494,6 +534,8 @@ def run_case(case):
     from BPTK_Py import Model
     if case["form"] == "shrink":
         return run_shrink(case)
+    if case["form"] == "agg_in_array":
+        return run_agg_in_array(case)
     if case["form"] == "stock_tv":
         return run_stock_tv(case)
     if case["form"] == "named_stock":
